@@ -1,5 +1,6 @@
 From Coq Require Import Extraction ExtrOcamlBasic ZArith NArith List.
 From MW Require Import PyBase Template.
 Definition znum (z : Z) : option nat := if Z.ltb 0 z then Some (Z.to_nat z) else None.
-Definition zstep := @step Z Z Z.eqb znum (fun _ => (-1)%Z).
+(* value ids below -1 stand for values with an '=' that cannot be escaped (inside an external link or a heading) *)
+Definition zstep := @step Z Z Z.eqb znum (fun _ => (-1)%Z) (fun v => Z.ltb v (-1)).
 Extraction "template_model.ml" Z.succ N.succ Nat.succ zstep.
